@@ -23,6 +23,7 @@ import (
 	"fmt"
 	"os"
 	"path/filepath"
+	"runtime"
 	"sort"
 	"strings"
 	"sync"
@@ -34,6 +35,7 @@ import (
 	client "github.com/liftbridge-io/liftbridge-api/v2/go"
 	pb "google.golang.org/protobuf/proto"
 
+	"github.com/liftbridge-io/liftbridge/server/commitlog"
 	"github.com/liftbridge-io/liftbridge/server/logger"
 	proto "github.com/liftbridge-io/liftbridge/server/protocol"
 )
@@ -60,15 +62,95 @@ func vC18GateFor(id string) *vC18Gate {
 	return vC18Gates[id]
 }
 
+// The dispatcher goroutine is recognised by the function it runs.  The name is not
+// written down here: it is learned from the stack of the goroutine that arrives at
+// the gate (the outermost frame, or the one inside the server's generic
+// startGoroutine wrapper), so a renamed dispatcher is still found.
+var vC18DispFn atomic.Value // string
+
+func vC18LearnDispatcher() {
+	if vC18DispFn.Load() != nil {
+		return
+	}
+	buf := make([]byte, 16<<10)
+	buf = buf[:runtime.Stack(buf, false)]
+	var fns []string
+	for _, ln := range strings.Split(string(buf), "\n")[1:] {
+		if ln == "" || ln[0] == '\t' || strings.HasPrefix(ln, "created by ") {
+			continue
+		}
+		if i := strings.LastIndex(ln, "("); i > 0 {
+			ln = ln[:i]
+		}
+		fns = append(fns, ln)
+	}
+	if len(fns) == 0 {
+		return
+	}
+	fn := fns[len(fns)-1]
+	if strings.Contains(fn, "startGoroutine") && len(fns) > 1 {
+		fn = fns[len(fns)-2]
+	}
+	vC18DispFn.Store(fn)
+}
+
+// number of goroutines of this process that run the dispatcher function; -1 = not known yet
+func vC18Dispatchers() int64 {
+	v := vC18DispFn.Load()
+	if v == nil {
+		return -1
+	}
+	fn := v.(string) + "("
+	buf := make([]byte, 4<<20)
+	buf = buf[:runtime.Stack(buf, true)]
+	n := int64(0)
+	for _, g := range strings.Split(string(buf), "\n\n") {
+		if strings.Contains(g, fn) {
+			n++
+		}
+	}
+	return n
+}
+
 func vC18Hook(name string) {
 	const pfx = "activity.published."
 	if !strings.HasPrefix(name, pfx) {
 		return
 	}
+	vC18LearnDispatcher()
 	g := vC18GateFor(name[len(pfx):])
 	if g == nil {
 		return
 	}
+	g.mu.Lock()
+	if g.open {
+		g.mu.Unlock()
+		return
+	}
+	g.parked = true
+	ch := make(chan struct{})
+	g.release = ch
+	g.mu.Unlock()
+	<-ch
+}
+
+// Second gate: the commit-log Append of the `__activity` partition (the only log
+// that receives messages in these scenarios) is held at "append.before_write".
+// A publish that is confirmed before it returns cannot let the dispatcher reach the
+// publish gate while its message is still held here; a publish that returns
+// without confirmation can - then the driver leaves the message held over the
+// record step and the recorded state shows a lastPublished that is ahead of the
+// stream.  vC18AppendGrace only decides how long the driver looks for that; on
+// code that confirms its publishes nothing can be observed however long it waits.
+var vC18Append = &vC18Gate{open: true}
+
+const vC18AppendGrace = 20 * time.Millisecond
+
+func vC18AppendHook(name string) {
+	if name != "append.before_write" {
+		return
+	}
+	g := vC18Append
 	g.mu.Lock()
 	if g.open {
 		g.mu.Unlock()
@@ -151,6 +233,7 @@ type vC18State struct {
 	Leader   bool        `json:"leader"`
 	Blocked  bool        `json:"blocked"`
 	Parked   bool        `json:"parked"`
+	Disps    int64       `json:"dispatchers"`
 	PubFails int64       `json:"pubfails"`
 	RecFails int64       `json:"recfails"`
 }
@@ -256,6 +339,7 @@ type vC18Node struct {
 	pubFails int64
 	recFails int64
 	blocked  bool
+	stepped  bool // leadershipLost was played, leadershipAcquired not yet
 }
 
 type vC18Run struct {
@@ -273,6 +357,36 @@ type vC18Run struct {
 }
 
 type vC18Inconclusive struct{ msg string }
+
+// the awaited dispatcher step cannot come: the server is the controller (its
+// promotion has run) and no dispatcher goroutine exists - observed continuously
+// for vC18StallFor.  Recorded as a "Stalled" line; TLC judges it.
+type vC18Stalled struct{ node *vC18Node }
+
+const vC18StallFor = 3 * time.Second
+
+func (r *vC18Run) waitDispatcher(n *vC18Node, what string, cond func() bool) {
+	deadline := time.Now().Add(vC18Deadline)
+	var zeroSince time.Time
+	for !cond() {
+		now := time.Now()
+		if now.After(deadline) {
+			vC18Fail("timeout waiting for %s", what)
+		}
+		ctl := n.srv != nil && n.srv.IsRunning() && n.srv.getRaft() != nil && n.srv.IsLeader() && !n.stepped
+		if ctl && vC18Dispatchers() == 0 {
+			if zeroSince.IsZero() {
+				zeroSince = now
+			} else if now.Sub(zeroSince) > vC18StallFor {
+				panic(vC18Stalled{n})
+			}
+			time.Sleep(20 * time.Millisecond)
+			continue
+		}
+		zeroSince = time.Time{}
+		time.Sleep(time.Millisecond)
+	}
+}
 
 func vC18Fail(format string, a ...interface{}) {
 	panic(vC18Inconclusive{fmt.Sprintf(format, a...)})
@@ -306,11 +420,13 @@ func (r *vC18Run) start(n *vC18Node) {
 	n.pubFails, n.recFails = 0, 0
 	srv.logger = &vC18Logger{Logger: srv.logger, pubFails: &n.pubFails, recFails: &n.recFails}
 	n.gate.setOpen(false)
+	vC18Append.setOpen(false)
 	if err := srv.Start(); err != nil {
 		vC18Fail("server %s did not start: %v", n.id, err)
 	}
 	n.srv = srv
 	n.blocked = false
+	n.stepped = false
 	r.seenPubFails = 0
 }
 
@@ -320,6 +436,8 @@ func (r *vC18Run) stop(n *vC18Node) {
 	}
 	srv := n.srv
 	done := make(chan struct{})
+	vC18Append.setOpen(true)
+	vC18Append.releaseOne()
 	// raftNode.shutdown() closes the log store without waiting for Raft's own
 	// goroutines (the Shutdown future is not awaited): stopping a node whose leader
 	// loop is still committing panics inside hashicorp/raft ("database not open").
@@ -444,7 +562,7 @@ func (r *vC18Run) readPub(n *vC18Node) {
 }
 
 func (r *vC18Run) state(focus *vC18Node) vC18State {
-	st := vC18State{Rlog: []vC18Entry{}, Pub: []vC18Ev{}}
+	st := vC18State{Rlog: []vC18Entry{}, Pub: []vC18Ev{}, Disps: -1}
 	n := focus
 	if n == nil || n.srv == nil {
 		n = r.anyUp()
@@ -454,6 +572,7 @@ func (r *vC18Run) state(focus *vC18Node) vC18State {
 		// read afterwards contains its event (the observation is not atomic)
 		st.Parked = n.gate.isParked()
 		st.Lp = int64(n.srv.activity.LastPublishedRaftIndex())
+		st.Disps = vC18Dispatchers()
 		r.readRaftLog(n)
 		r.readPub(n)
 		st.Up = true
@@ -537,6 +656,9 @@ func (r *vC18Run) step(step map[string]interface{}) (ev vC18Event) {
 		}
 	}
 	var focus *vC18Node
+	if a != "RecordPublished" {
+		vC18Append.releaseOne()
+	}
 	switch a {
 	case "Start":
 		n := r.node(step)
@@ -544,10 +666,34 @@ func (r *vC18Run) step(step map[string]interface{}) (ev vC18Event) {
 		if n.srv == nil {
 			r.start(n)
 		}
+	case "StepDown":
+		// the controller loses the leadership and its process keeps running: the entry
+		// point the Raft leadership loop of server.go calls for `false` on notifyCh
+		n := r.node(step)
+		focus = n
+		if n.srv == nil || !n.srv.IsLeader() {
+			vC18Fail("StepDown: %s is not the controller", n.id)
+		}
+		if err := n.srv.leadershipLost(n.srv.getRaft()); err != nil {
+			vC18Fail("leadershipLost: %v", err)
+		}
+		n.stepped = true
+		if !n.gate.isParked() {
+			vC18Wait("old dispatcher of "+n.id+" to exit", func() bool { return vC18Dispatchers() <= 0 })
+		}
 	case "Elect":
 		// single server: it elects itself; several servers: see TakeOver
 		n := r.node(step)
 		focus = n
+		if n.stepped {
+			// same process elected again: the entry point the leadership loop calls
+			// for `true` on notifyCh (Barrier entry, BecomeLeader, setLeader)
+			if err := n.srv.leadershipAcquired(n.srv.getRaft()); err != nil {
+				vC18Fail("leadershipAcquired: %v", err)
+			}
+			n.stepped = false
+			break
+		}
 		vC18Wait("raft leadership of "+n.id, func() bool {
 			if !(n.srv != nil && n.srv.IsRunning() && n.srv.getRaft() != nil && n.srv.getRaft().State() == raft.Leader) {
 				return false
@@ -572,7 +718,21 @@ func (r *vC18Run) step(step map[string]interface{}) (ev vC18Event) {
 	case "DispatchPublish":
 		n := r.node(step)
 		focus = n
-		vC18Wait("dispatcher of "+n.id+" parked after a publish", n.gate.isParked)
+		var heldSince time.Time
+		r.waitDispatcher(n, "dispatcher of "+n.id+" parked after a publish", func() bool {
+			if n.gate.isParked() {
+				return true
+			}
+			if vC18Append.isParked() {
+				if heldSince.IsZero() {
+					heldSince = time.Now()
+				} else if time.Since(heldSince) > vC18AppendGrace {
+					vC18Append.releaseOne()
+					heldSince = time.Time{}
+				}
+			}
+			return false
+		})
 	case "RecordPublished":
 		n := r.node(step)
 		focus = n
@@ -600,7 +760,7 @@ func (r *vC18Run) step(step map[string]interface{}) (ev vC18Event) {
 	case "PublishFail":
 		n := r.node(step)
 		focus = n
-		vC18Wait("publish failure", func() bool { return atomic.LoadInt64(&n.pubFails) > r.seenPubFails })
+		r.waitDispatcher(n, "publish failure", func() bool { return atomic.LoadInt64(&n.pubFails) > r.seenPubFails })
 		r.seenPubFails++
 	case "Backoff", "DispatchSkip", "NoticeLost", "DispatchExit":
 		focus = r.nodes[vStrDef(step, "n", r.order[0])]
@@ -651,6 +811,7 @@ func (r *vC18Run) step(step map[string]interface{}) (ev vC18Event) {
 		focus = n
 		vC18Wait("dispatcher to catch up", func() bool {
 			n.gate.releaseOne()
+			vC18Append.releaseOne()
 			r.readRaftLog(n)
 			last := int64(0)
 			for i, e := range r.rlog {
@@ -665,6 +826,41 @@ func (r *vC18Run) step(step map[string]interface{}) (ev vC18Event) {
 	}
 	ev.St = r.state(focus)
 	return ev
+}
+
+// A dispatcher step that was awaited did not come in time.  Before the behaviour is
+// given up (inconclusive), one more operation is committed and the dispatcher is let
+// run freely for a while: if THAT operation's event shows up while an earlier one is
+// still missing, the recorded state violates C18_NoSkip - a verdict that does not
+// depend on how long anybody waited.  If nothing shows up nothing is concluded.
+func (r *vC18Run) probe() (ev vC18Event, ok bool) {
+	defer func() {
+		if p := recover(); p != nil {
+			ok = false
+		}
+	}()
+	n := r.controller()
+	if n == nil || n.blocked || n.stepped {
+		return ev, false
+	}
+	name := fmt.Sprintf("probe%d", r.bid)
+	step := map[string]interface{}{"a": "CommitOp", "op": "create", "name": name}
+	if err := r.commitOp(n, step); err != nil {
+		return ev, false
+	}
+	want := "CREATE_STREAM:" + name + ":0"
+	deadline := time.Now().Add(5 * time.Second)
+	for time.Now().Before(deadline) {
+		n.gate.releaseOne()
+		vC18Append.releaseOne()
+		r.readPub(n)
+		if len(r.pub) > 0 && r.pub[len(r.pub)-1].C == want {
+			break
+		}
+		time.Sleep(2 * time.Millisecond)
+	}
+	ev = vC18Event{T: r.bid, A: "Probe", Args: map[string]interface{}{"name": name}, St: r.state(n)}
+	return ev, true
 }
 
 func (r *vC18Run) closeAll() {
@@ -683,7 +879,8 @@ func TestVerifC18(t *testing.T) {
 	tw := vOpenTrace(t)
 	defer tw.Close()
 	VerifGateHook = vC18Hook
-	defer func() { VerifGateHook = nil }()
+	commitlog.VerifGateHook = vC18AppendHook
+	defer func() { VerifGateHook = nil; commitlog.VerifGateHook = nil }()
 	timeouts := 0
 	for _, b := range sf.Behaviours {
 		nodes := []string{"a"}
@@ -707,7 +904,16 @@ func TestVerifC18(t *testing.T) {
 			defer r.closeAll()
 			defer func() {
 				if p := recover(); p != nil {
+					if stl, ok := p.(vC18Stalled); ok {
+						ev := vC18Event{T: b.ID, A: "Stalled", Args: map[string]interface{}{"n": stl.node.id}, St: r.state(stl.node)}
+						tw.Emit(ev)
+						tw.Emit(map[string]interface{}{"t": b.ID, "a": "Completed"})
+						return
+					}
 					if inc, ok := p.(vC18Inconclusive); ok {
+						if ev, ok := r.probe(); ok {
+							tw.Emit(ev)
+						}
 						timeouts++
 						tw.Emit(map[string]interface{}{"t": b.ID, "a": "Abandoned", "why": inc.msg})
 						return
